@@ -82,6 +82,8 @@ pub enum RClause {
     NarSample,
     Panic,
     NoProgress,
+    /// the sampler did not return within the watchdog limit (without drawing words)
+    Hang,
 }
 
 impl RClause {
@@ -91,10 +93,11 @@ impl RClause {
             RClause::NarSample => "nar_sample",
             RClause::Panic => "panic",
             RClause::NoProgress => "no_progress",
+            RClause::Hang => "hang",
         }
     }
     pub fn parse(s: &str) -> Option<RClause> {
-        [RClause::Range01, RClause::NarSample, RClause::Panic, RClause::NoProgress]
+        [RClause::Range01, RClause::NarSample, RClause::Panic, RClause::NoProgress, RClause::Hang]
             .into_iter()
             .find(|c| c.name() == s)
     }
@@ -151,6 +154,7 @@ pub trait Served {
 
 pub struct SimRng<'a> {
     rng: &'a mut Prng,
+    trace: Option<Box<dyn std::io::Write>>,
     mode: RngMode,
     skew: bool,
     /// remaining draws of the current stuck burst and its word
@@ -189,6 +193,7 @@ impl<'a> SimRng<'a> {
         };
         SimRng {
             rng,
+            trace: None,
             mode,
             skew,
             burst_left: 0,
@@ -212,6 +217,18 @@ impl<'a> SimRng<'a> {
     pub fn begin_sample(&mut self) {
         self.draws_since_calm = 0;
         self.sample_draws = 0;
+        if let Some(t) = self.trace.as_mut() {
+            let _ = writeln!(t, "\nsample");
+            let _ = t.flush();
+        }
+    }
+
+    fn log(&mut self, m: Method, w: u64) {
+        self.served.push((m, w));
+        if let Some(t) = self.trace.as_mut() {
+            let _ = write!(t, " {}{:x}", m.ch(), w);
+            let _ = t.flush();
+        }
     }
 
     /// One word for a request of `bits` (32 or 64) bits.
@@ -335,7 +352,7 @@ impl<'a> SimRng<'a> {
 impl<'a> RngCore for SimRng<'a> {
     fn next_u32(&mut self) -> u32 {
         let w = self.word(32) as u32;
-        self.served.push((Method::U32, w as u64));
+        self.log(Method::U32, w as u64);
         w
     }
     fn next_u64(&mut self) -> u64 {
@@ -345,7 +362,7 @@ impl<'a> RngCore for SimRng<'a> {
         if self.skew {
             w = w.rotate_left(32) ^ 0x5555_5555_0000_0000;
         }
-        self.served.push((Method::U64, w));
+        self.log(Method::U64, w);
         w
     }
     fn fill_bytes(&mut self, dest: &mut [u8]) {
@@ -354,7 +371,7 @@ impl<'a> RngCore for SimRng<'a> {
             if self.skew {
                 w = !w.rotate_left(17);
             }
-            self.served.push((Method::Fill, w));
+            self.log(Method::Fill, w);
             let b = w.to_le_bytes();
             chunk.copy_from_slice(&b[..chunk.len()]);
         }
@@ -588,6 +605,7 @@ impl Bitmap {
     }
 }
 
+#[derive(Clone)]
 pub struct RGenerated {
     pub case: RCase,
     pub failure: Option<RFailure>,
@@ -597,6 +615,12 @@ pub struct RGenerated {
 }
 
 pub fn generate_and_run(seed: u64, run: u64, st: &mut Stats, outcomes: &[Bitmap; 3]) -> RGenerated {
+    generate_and_run_traced(seed, run, st, outcomes, None)
+}
+
+/// As `generate_and_run`; with a trace sink the configuration and every served word are written
+/// (and flushed) as they happen, so a sampler that never returns leaves the stream that hangs it.
+pub fn generate_and_run_traced(seed: u64, run: u64, st: &mut Stats, outcomes: &[Bitmap; 3], mut trace: Option<Box<dyn std::io::Write>>) -> RGenerated {
     let mut rng = Prng::for_run(seed, STREAM_RNG, run);
     let qt = match rng.weighted(&[2, 5, 5]) {
         0 => QT::Q8,
@@ -638,7 +662,12 @@ pub fn generate_and_run(seed: u64, run: u64, st: &mut Stats, outcomes: &[Bitmap;
         Entry::Iter => Pr::rng_entry_iter,
         Entry::Dyn => Pr::rng_entry_dyn,
     });
+    if let Some(t) = trace.as_mut() {
+        let _ = writeln!(t, "type {}\nentry {}\nnsamples {}", qt.pname(), entry.name(), nsamples);
+        let _ = t.flush();
+    }
     let mut sim = SimRng::new(&mut rng, mode, skew);
+    sim.trace = trace;
     let mut failure: Option<RFailure> = None;
     let mut outs: Vec<u32> = Vec::new();
     let mut starts: Vec<usize> = Vec::new();
